@@ -160,13 +160,20 @@ def _crate_dir(crate):
     raise EngineError("unknown crate " + crate)
 
 
+def profile():
+    """build profile whose code is analysed: 'dev' (debug assertions and overflow checks on — the
+    configuration the properties are stated for) or 'release' (VERIF_PROFILE=release; thorough tier)"""
+    return "release" if os.environ.get("VERIF_PROFILE") == "release" else "dev"
+
+
 def _feat_args(features):
     return ["--features", ",".join(features)] if features else []
 
 
 def expanded_ast(crate="lol_html", features=()):
     """JSON syntax tree of the macro-expanded crate (rustc -Zunpretty=expanded, parsed with syn)."""
-    tag = crate + ("+" + "+".join(features) if features else "")
+    rel = profile() == "release"
+    tag = crate + ("+" + "+".join(features) if features else "") + ("+release" if rel else "")
     out_json = os.path.join(_cache_dir(), f"expanded-{tag}.json")
     with _Lock("facts"):
         if not os.path.exists(out_json):
@@ -174,7 +181,7 @@ def expanded_ast(crate="lol_html", features=()):
                 raise EngineError("astq engine not built (run MANIFEST.setup_cmd)")
             target = os.path.join(CACHE, "target-exp")
             _forget_fingerprints(target, ["lol_html", "lol_html_c_api", "lolhtml"])
-            cmd = ["cargo", "+nightly", "rustc", "--offline", "--lib", *_feat_args(features), "--", "-Zunpretty=expanded"]
+            cmd = ["cargo", "+nightly", "rustc", "--offline", "--lib", *_feat_args(features), *(["--release"] if rel else []), "--", "-Zunpretty=expanded"]
             env = _env()
             env["CARGO_TARGET_DIR"] = target
             p, dt = _run(cmd, _crate_dir(crate), env, f"macro expansion of {tag}")
@@ -198,6 +205,7 @@ def nightly_sysroot():
 
 def mir_facts(crate="lol_html", features=(), release=False):
     """JSON facts from the type-checked program / MIR (rustc_private driver as workspace wrapper)."""
+    release = release or profile() == "release"
     tag = crate + ("+" + "+".join(features) if features else "") + ("+release" if release else "")
     out_json = os.path.join(_cache_dir(), f"mir-{tag}.json")
     with _Lock("facts"):
